@@ -169,6 +169,13 @@ Theorem C04_requests_use_current_table : forall h, Forall sreq_ok h -> forall st
 Proof. exact reqs_run_spec. Qed.
 Print Assumptions C04_requests_use_current_table.
 
+(* ... and TODAY's PathPermissions wrapper does ask the user logged in now, on every call (closed check on Gen/Resolve.v) *)
+Theorem C04_lookup_asks_current_user :
+  check_pathperm_lookup Gen.Resolve.pp_conn_reads Gen.Resolve.pp_conn_writes Gen.Resolve.pp_conn_other
+                        Gen.Resolve.pp_lookup_direct = true.
+Proof. vm_compute. reflexivity. Qed.
+Print Assumptions C04_lookup_asks_current_user.
+
 (* the permission decision and the handler's own resolution of `rest` cannot be separated by a suspension (where a
    pipelined CWD could run): on TODAY's source PathPermissions is the innermost decorator of every handler that
    carries it -- the awaiting PathConditions and ConnectionConditions come before it -- and the body of every method
